@@ -41,7 +41,9 @@ def ft_sh_phase_screen(r0, N, delta, L0, l0, FFT=None, seed=None):
 
     D = N * delta
     # high-frequency screen from FFT method
-    phs_hi = ft_phase_screen(r0, N, delta, L0, l0, FFT, seed=seed)
+    # draw the high-frequency coefficients from the same generator: seeding a second one with the
+    # same integer would make the sub-harmonic coefficients copies of the high-frequency ones
+    phs_hi = ft_phase_screen(r0, N, delta, L0, l0, FFT, seed=R)
 
     # spatial grid [m]
     coords = numpy.arange(-N/2,N/2)*delta
